@@ -143,8 +143,11 @@ static void report(const char *who, int idx, int pkt, int w, int h, int bits, co
 }
 
 static const char *g_phase = "start";
+static unsigned g_alarm_period = 120;
 static void on_alarm(int s) {
     (void)s;
+    if (vrt_alarm_should_wait(g_alarm_period, 6))
+        return; /* slow or starved, not stuck: keep waiting (bounded) */
     if (g_out) {
         fprintf(g_out, "{\"ev\":\"Timeout\",\"phase\":\"%s\"}\n", g_phase);
         fflush(g_out);
@@ -296,6 +299,7 @@ int main(int argc, char **argv) {
     if (!g_out) return 2;
     if (trace_out && vrt_trace_open(trace_out, streams)) return 2;
     signal(SIGALRM, on_alarm);
+    g_alarm_period = (unsigned)timeout_s;
     alarm((unsigned)timeout_s);
     if (pt_pm) vrt_perturb(pt_seed, pt_pm, pt_us);
     int err = 0;
